@@ -89,6 +89,20 @@ def gen_population(rng, cls, n, d):
 
 def make_case(seed, idx, tier):
     rng = gen.case_rng("C15", seed, idx)
+    if idx % 100 == 99:
+        # a real run whose NBC generator is observed through the tap: clustering of *real* populations (late CMA-ES /
+        # DE generations) and the nbc_mean_distance feature vs. the reference
+        prof = {
+            "dim": (2, 4), "levels": [2, 3, 3], "roots": gen.POP_ENGINES + ["lhs", "sobol"], "inners": gen.POP_ENGINES + ["cma"],
+            "sprout": rng.choice(["nbc", "custom"]), "gscs": ["melimit"], "lscs": ["dontstop", "melimit"], "stacks": False,
+            "fams": ["rastrigin", "funnel", "sphere", "plateau"],
+        }
+        d = gen.gen_tree_case(rng, prof)
+        if d["sprout"]["k"] == "custom" and d["sprout"]["gen"]["k"] == "best":
+            d["sprout"]["gen"] = {"k": "nbc", "df": 2.0, "trunc": rng.choice([1.0, 0.7])}
+        d["gsc"] = {"k": "melimit", "n": 8}
+        d["kind"] = "c15run"
+        return d
     cls = CLASSES[idx % len(CLASSES)]
     n = rng.randint(2, 60 if idx % 3 else 12)
     d = rng.randint(1, 8)
@@ -132,7 +146,52 @@ def _cluster(genomes, fits, maximize, factor, trunc):
     return [idx_of[id(o)] for o in out], dists
 
 
+class C15Feature:
+    """Tap-side monitor: every NBC generator call of a real run is re-derived with the reference."""
+
+    prop = "C15"
+    ctx = None
+
+    def on_generator(self, g, out, tree):
+        name = type(g).__name__
+        if name not in ("NBC_Generator", "NBCGeneratorWithLocalMethod"):
+            return
+        from ..harness import canon
+
+        ctx = self.ctx
+        for deme, cand in out.items():
+            if not deme.is_active:
+                continue
+            pop = deme.current_population
+            genomes = [canon(i.genome).tolist() for i in pop]
+            fits = [float(i.fitness) for i in pop]
+            if len({tuple(x) for x in genomes}) != len(genomes) or not all(math.isfinite(f) for f in fits):
+                ctx.cov["C15.real_population_skipped_duplicates_or_inf"] += 1
+                continue
+            K, kept, dist, mean, must, may = ref_nbc(genomes, fits, ctx.maximize, g.distance_factor, g.truncation_factor)
+            if K < 2 or mean is None:
+                continue
+            ctx.cov["C15.real_populations_checked"] += 1
+            ctx.cov[f"C15.real_populations.{type(deme).__name__}"] += 1
+            f = cand.features.nbc_mean_distance
+            if f is None or not (abs(float(f) - mean) <= 1e-12 * max(abs(mean), 1e-300)):
+                ctx.violation("C15", "nbc_mean_distance feature of a real population differs from the reference mean", {"deme": deme.id, "feature": None if f is None else float(f), "reference": mean, "K": K})
+            got = {next(k for k, p_ in enumerate(pop) if p_ is ind) for ind in cand.individuals if any(p_ is ind for p_ in pop)}
+            best_fit = fits[kept[0]]
+            tied = {i for i in kept if fits[i] == best_fit}
+            missing = {i for i in must if i not in tied} - got
+            extra = got - (must | may | tied)
+            if missing or extra or not (got & tied):
+                ctx.violation("C15", "clustering of a real population differs from the reference", {"deme": deme.id, "missing": sorted(missing)[:5], "extra": sorted(extra)[:5], "K": K, "n": len(pop)})
+
+
 def run_case(desc):
+    if desc.get("kind") == "c15run":
+        from .. import harness
+        from ..props import run_result
+
+        ctx = harness.run_case(desc, [C15Feature()])
+        return run_result(ctx, desc)
     cov = Counter()
     violations = []
     nontrivial = []
